@@ -10,5 +10,5 @@ Extraction "indexmodel.ml"
   dim_mult dim_addr array_deref mk_arr arr_elems
   get_slice_range compose_ranges slice_range slice_array slice_slice range_deref slice_deref
   string_deref slice_string
-  new_arr can_add can_mult arr_addsub arr_matmul
+  new_arr can_add can_mult arr_addsub arr_matmul arr_unary dim_copy arr_copy
   exctab_search exctab_of_list exception_tab_search.
